@@ -352,6 +352,8 @@ def r2_components(ctx, g, handlers):
                   f'on every path the grammar allows, the barline text is "=" / "==" followed by pieces of the cell as written ({n_tok} paths)',
                   f'the barline token can receive the text {sorted(bad_lits)[:3]} that is not a piece of the cell: a barline type is '
                   f'silently replaced by another spelling on export')
+    # ... and the barline token stores that text as it is (a re-spelling inside the constructor is the same rewrite)
+    shared.check_token_ctors_verbatim(ctx, 'R2', only={'BarToken'})
     # barline: pieces kept
     eb = handlers.get('barline', {}).get('exit')
     if eb is None:
@@ -437,6 +439,8 @@ def r3_verbatim(ctx, handlers):
                   f'{clsname} receives `{src(calls[0].args[0]) if calls and calls[0].args else None}`')
     c04.r6_chords(ctx)
     shared.plain_encodings_keep_verbatim_text(ctx, 'R3')
+    shared.check_token_ctors_verbatim(ctx, 'R3')
+    shared.check_cells_unmodified(ctx, 'R3')
     c01.note_receives_decorations(ctx, 'R2')
 
 
